@@ -6,7 +6,7 @@ from vf import check, reference
 from vf.model import Repo
 out = {}
 from vf import generic
-allrels = sorted({r for i in range(1, 21) for r in generic.anchors('C%02d' % i)} | {k.split('|')[1] for rid, v in (reference.load() or {}).items() if not rid.startswith('__') and isinstance(v, dict) for k in v.get('units', {})})
+allrels = sorted({r for i in range(1, 21) for r in generic.anchors('C%02d' % i)} | {r for v in generic.EXTRA_FILES.values() for r in v} | {k.split('|')[1] for rid, v in (reference.load() or {}).items() if not rid.startswith('__') and isinstance(v, dict) for k in v.get('units', {})})
 out['__live_params__'] = generic.live_table(Repo('/repo'), allrels)
 from vf import diffrules
 out['__atoms__'] = diffrules.table(Repo('/repo'), allrels)
